@@ -6,13 +6,14 @@ open EdbVerif EdbVerif.Driver EdbVerif.Gen.Card EdbVerif.MiniQL
 Line protocol for C06.
 
 * `comb <name> <args…>`                 — one generated combinator (see `comb`)
-* `infer <ptrs>|<fns>|<descs>|<term>`           — `accepts`, `inferCard`, `inferMult` of a closed term
-* `eval <ptrs>|<fns>|<descs>|<objs>|<data>|<term>` — `eval` on a database
+* `infer <ptrs>|<fns>|<descs>|<params>|<term>`           — `accepts`, `inferCard`, `inferMult` of a closed term
+* `eval <ptrs>|<fns>|<descs>|<params>|<objs>|<data>|<pvals>|<term>` — `eval` on a database
 
 `<ptrs>`  `srcTy,required,multi,link,exclusive;…`  (link = -1 for a property, else the target type)
 `<fns>`   `PARAMS,RET,isOp,kind,impl;…`  PARAMS/RET over S(ingleton) O(ptional) A(=SET OF), `-` for no parameter;
           kind e(q) a(nd) p(lus) o(ther)
 `<descs>` `t:d.d.d,…` transitive strict descendants per object type (`-` for none)
+`<params>` one digit per query parameter, 1 = required, 0 = optional (`-` for none); `<pvals>` `v,v,…`, `n` = `{}`
 `<objs>`  `id:ty,…`     `<data>`  `p:id=v v v;…` with values `i<int>` / `o<id>`
 `<term>`  prefix notation, see `parseQ`.
 Malformed input gives `bad-op`.
@@ -110,8 +111,10 @@ partial def parseQ : List String → Option (Q × List String)
   | "C" :: k :: r => do
     let k ← k.toNat?
     if r.length < k then none
-    let ns ← allSome ((r.take k).map String.toInt?)
-    some (.constSet ns, r.drop k)
+    let es ← allSome ((r.take k).map fun w =>
+      if w.startsWith "p" then (w.drop 1).toString.toNat?.map CElem.p else w.toInt?.map CElem.c)
+    some (.constSet es, r.drop k)
+  | "M" :: i :: r => i.toNat?.map fun i => (.param i, r)
   | "V" :: i :: r => i.toNat?.map fun i => (.var i, r)
   | "R" :: t :: r => t.toNat?.map fun t => (.root t, r)
   | "P" :: p :: r => do
@@ -293,11 +296,12 @@ def parseDescs (s : String) : Option (List (List Nat)) :=
       | some e => e.2
       | none => [])
 
-def parseSchema (ps fs ds : String) : Option Schema := do
+def parseSchema (ps fs ds pr : String) : Option Schema := do
   let ptrs ← parseSemi parsePtr ps
   let fns ← parseSemi parseFn fs
   let descs ← parseDescs ds
-  some { ptrs := ptrs, fns := fns, descs := descs }
+  let params ← if pr == "-" || pr == "" then some [] else allSome (pr.toList.map fun c => parseBool01 c.toString)
+  some { ptrs := ptrs, fns := fns, descs := descs, params := params }
 
 def parseVal (s : String) : Option Val :=
   if s.startsWith "i" then (s.drop 1).toString.toInt?.map Val.int
@@ -317,10 +321,12 @@ def parseDatum (s : String) : Option ((Nat × Nat) × List Val) :=
     some (key, vals)
   | _ => none
 
-def parseDB (os ds : String) : Option DB := do
+def parseDB (os ds pv : String) : Option DB := do
   let objs ← if os == "-" || os == "" then some [] else allSome ((os.splitOn ",").map parseObj)
   let ptrs ← parseSemi parseDatum ds
-  some { objs := objs, ptrs := ptrs }
+  let params ← if pv == "-" || pv == "" then some [] else
+    allSome ((pv.splitOn ",").map fun w => if w == "n" then some none else w.toInt?.map some)
+  some { objs := objs, ptrs := ptrs, params := params }
 
 partial def showVal : Val → String
   | .int n => toString n
@@ -338,8 +344,8 @@ def handle (line : String) : String :=
   | "comb" :: ws => comb ws
   | "infer" :: rest =>
     match (" ".intercalate rest).splitOn "|" with
-    | [ps, fs, ds, t] =>
-      match parseSchema (trim ps) (trim fs) (trim ds), parseTerm t with
+    | [ps, fs, ds, pr, t] =>
+      match parseSchema (trim ps) (trim fs) (trim ds) (trim pr), parseTerm t with
       | some sch, some q =>
         if accepts sch [] q then
           let c := inferCard sch [] q
@@ -350,8 +356,9 @@ def handle (line : String) : String :=
     | _ => "bad-op"
   | "eval" :: rest =>
     match (" ".intercalate rest).splitOn "|" with
-    | [ps, fs, hs, os, ds, t] =>
-      match parseSchema (trim ps) (trim fs) (trim hs), parseDB (trim os) (trim ds), parseTerm t with
+    | [ps, fs, hs, pr, os, ds, pv, t] =>
+      match parseSchema (trim ps) (trim fs) (trim hs) (trim pr), parseDB (trim os) (trim ds) (trim pv),
+          parseTerm t with
       | some sch, some db, some q =>
         let vs := eval sch db [] q
         if vs.isEmpty then "-" else " ".intercalate (vs.map showVal)
